@@ -56,8 +56,9 @@ def check_record(case, rec) -> list:
     for f, st in res["features"].items():
         if f in cfg.feats or not st["enabled"] or not st["name"]:
             continue
-        if st["vis"] != "" or not st["name"].startswith("__"):
-            errs.append("helper %s generated as %r with vis %r (must be private and __-named)" % (f, st["name"], st["vis"]))
+        # the helper's *name* is free ("may change at any time"); only its privacy is promised
+        if st["vis"] != "":
+            errs.append("helper %s generated as %r with vis %r (helpers must be private)" % (f, st["name"], st["vis"]))
     return errs
 
 
